@@ -5,6 +5,7 @@
 import PatchModel.Spec.Inert
 import PatchModel.Spec.Diff
 import PatchModel.Spec.Names
+import PatchModel.Lemmas.Header
 namespace PatchModel.C11
 open PatchModel
 
@@ -40,7 +41,15 @@ theorem unified_header_roundtrip (old new oldt newt : Bytes) (h : Hunk) (first :
                  oldTime := oldt, newTime := newt },
                info, par') ∧
       par'.s.rest = ⟨rangeLineText h, .lf⟩ :: first :: more ∧ par'.s.eof = false ∧ par'.s.bad = false := by
-  sorry
+  have hb : Header.bodyStart first.content := by
+    rcases hfirst.1 with h1 | h1 | h1
+    · exact Or.inr (Or.inr h1)
+    · exact Or.inl h1
+    · exact Or.inr (Or.inl h1)
+  have hp := Header.parseHeader_unified strip
+    { s := { rest := unifiedHeader old new oldt newt ++ ⟨rangeLineText h, .lf⟩ :: first :: more }, lineNo := lineNo } {} []
+    old new oldt newt h first more (by simp) (by simp) hold hnew hot hnt hr hb hfirst.2.1 hfirst.2.2 hterm rfl rfl rfl rfl rfl
+  exact ⟨_, _, hp, rfl, rfl, rfl⟩
 
 /-- … and inert filler lines in front of the header change nothing (mail headers, commit messages, blank lines) -/
 theorem unified_header_after_filler (filler : List Line) (old new oldt newt : Bytes) (h : Hunk) (first : Line) (more : List Line)
@@ -61,6 +70,18 @@ theorem unified_header_after_filler (filler : List Line) (old new oldt newt : By
                  oldTime := oldt, newTime := newt },
                info, par') ∧
       par'.s.rest = ⟨rangeLineText h, .lf⟩ :: first :: more := by
-  sorry
+  have hb : Header.bodyStart first.content := by
+    rcases hfirst.1 with h1 | h1 | h1
+    · exact Or.inr (Or.inr h1)
+    · exact Or.inl h1
+    · exact Or.inr (Or.inl h1)
+  have hp := Header.parseHeader_unified strip
+    { s := { rest := filler ++ unifiedHeader old new oldt newt ++ ⟨rangeLineText h, .lf⟩ :: first :: more }, lineNo := lineNo } {}
+    filler old new oldt newt h first more hin hft hold hnew hot hnt hr hb hfirst.2.1 hfirst.2.2 hterm rfl rfl rfl rfl
+    (by simp only [unifiedHeader, List.append_assoc, List.cons_append, List.nil_append]; rfl)
+  exact ⟨_, _, hp, rfl⟩
 
 end PatchModel.C11
+
+#print axioms PatchModel.C11.unified_header_roundtrip
+#print axioms PatchModel.C11.unified_header_after_filler
